@@ -142,7 +142,7 @@ def core_check(pid: str, *, f_filter=None, cfgs=("A",), quick_stride=8, quick_ke
                 tlc.cleanup(res)
     if traces:
         from .. import trace_core
-        trace_core.validate(chk, traces[0 if chk.quick else 1], flags=trace_flags)
+        trace_core.validate(chk, traces[0 if chk.quick else 1], flags=trace_flags, sessions=120 if chk.quick else 1500)
     if extra:
         extra(chk)
     return chk
@@ -242,7 +242,7 @@ def replay_file(chk: Check):
         from .. import trace_core
         sub = Check(chk.pid, chk.level, argv=[])
         sub.seed = rp.get("seed", 0)
-        trace_core.validate(sub, 0, cases=[rp["case"]], second=1.0 if rp.get("second") else 0.0)
+        trace_core.validate(sub, 0, cases=[rp["case"]], second=1.0 if rp.get("second") else 0.0, sessions=1 if rp.get("session") else 0)
         print(rp["module"])
         for v in sub.violations:
             print("MISMATCH", json.dumps(v["sig"]), str(v["replay"].get("tlc"))[:600])
